@@ -31,13 +31,22 @@ def run_checks(d, plist, tier, env=None):
         viol = [l for l in txt.splitlines() if l.startswith("VIOLATION")]
         und = [l for l in txt.splitlines() if l.startswith(("UNDECIDED", "CHECKER-ERROR"))]
         sigs = []
-        for v in viol[:4]:
+        kinds, ob_sigs = {}, []
+        for v in viol:
             try:
-                sigs.append(json.load(open(v.split("replay=")[1].split()[0]))["signature"][:160])
+                d = json.load(open(v.split("replay=")[1].split()[0]))
             except Exception:
-                pass
+                continue
+            if len(sigs) < 4:
+                sigs.append(d["signature"][:160])
+            kd = d.get("kind", "?")
+            if kd == "obligation":
+                kd = "L1 frame obligation" if d["signature"].startswith("frames.") else "L2 obligation"
+                if len(ob_sigs) < 3:
+                    ob_sigs.append(d["signature"][:160] + (" [replayed input]" if d.get("replay") else " [no-failing-input-found]"))
+            kinds[kd] = kinds.get(kd, 0) + 1
         out[p] = {"exit": rc, "violations": viol[:6], "signatures": sigs, "undecided": und[:4], "wall_s": round(time.time() - t0, 1),
-                  "tier": tier, "detected": rc == 1 and bool(viol)}
+                  "tier": tier, "detected": rc == 1 and bool(viol), "violations_by_kind": kinds, "obligation_signatures": ob_sigs}
         print(f"{d:10s} check {p}: exit={rc} detected={rc == 1 and bool(viol)} ({len(viol)} VIOLATION, {len(und)} undecided) {time.time() - t0:.0f}s  "
               + " | ".join(sigs[:2]), flush=True)
     return out
